@@ -8,6 +8,7 @@ import re
 from types import SimpleNamespace as NS
 
 import z3
+from vf.hlib import swapped
 
 from . import engb
 from .engb import F64, RNE, SFloat, SInt
@@ -369,8 +370,8 @@ def strwidth_units(tier="quick", seed=0):
         def getlength(self, text):
             return SFloat(10.0, px)
 
-    saved = sw.ImageFont
-    sw.ImageFont = NS(truetype=lambda path, size=None: (seen.append((path, size)), FakeFont())[1])
+    saved = swapped((__import__("PIL.ImageFont", fromlist=["x"]), NS(truetype=lambda path, size=None: (seen.append((path, size)), FakeFont())[1])))
+    saved.__enter__()
     dpi2 = z3.FP("dpi2", F64)
     bounds += engb.fbounds(dpi2, 36.0, 600.0)
     try:
@@ -378,7 +379,7 @@ def strwidth_units(tier="quick", seed=0):
         # one-step history: the same text/font/size/unit measured again at ANOTHER dpi must not remember the first answer
         res2 = {u: sw.get_string_width("abc", font=1, font_size=9, unit=u, dpi=SFloat(300.0, dpi2)) for u in ("px", "in", "mm")}
     finally:
-        sw.ImageFont = saved
+        saved.__exit__()
     if engb.Ctx.unsupported or engb.Ctx.conds:
         out.update(verdict="inconclusive", reason="untraced operation or branch: %s" % engb.Ctx.unsupported)
         return out
@@ -408,12 +409,13 @@ def strwidth_units(tier="quick", seed=0):
             class PlainFont:
                 def getlength(self, text):
                     return vp
-            sw.ImageFont = NS(truetype=lambda path, size=None: PlainFont())
+            saved = swapped((__import__("PIL.ImageFont", fromlist=["x"]), NS(truetype=lambda path, size=None: PlainFont())))
+            saved.__enter__()
             try:
                 first = {u: sw.get_string_width("abd", font=1, font_size=9, unit=u, dpi=vd) for u in ("px", "in", "mm")}
                 second = {u: sw.get_string_width("abd", font=1, font_size=9, unit=u, dpi=vd2) for u in ("px", "in", "mm")}
             finally:
-                sw.ImageFont = saved
+                saved.__exit__()
             ok = (first["px"] == vp and first["in"] == vp / vd and first["mm"] == (vp / vd) * 25.4 and second["px"] == vp
                   and second["in"] == vp / vd2 and second["mm"] == (vp / vd2) * 25.4)
             if ok:
